@@ -1357,6 +1357,8 @@ def path_rows(body, start=0, relevant=None, stop=None, limit=20000, meta=None):
             subj, mode, cv = classify_test(o)
             if meta is not None and o and o[0] == 'discr' and len(o) > 2 and o[2]:
                 meta[subj] = o[2]
+            if meta is not None:
+                meta.setdefault('__terms__', {})[subj] = o
             rel = relevant(subj) if relevant else True
             edges = body.switch_edges(bb)
             armvals = tuple(sorted(v for v, _ in t['arms']))
